@@ -22,9 +22,9 @@ class OpenVpnOpCode(enum.IntEnum):
     HARD_RESET_SERVER_V2 = 0x08
 
 
+@attr.s
 class OpenVpnPacketWrapperTcp(ParsableBase):
-    def __init__(self, payload):
-        self.payload = payload
+    payload = attr.ib(validator=attr.validators.instance_of((bytes, bytearray)))
 
     @classmethod
     def _parse(cls, parsable):
